@@ -28,14 +28,14 @@ do not contain the root: the name is reported blocked exactly when it or a
 parent is a plain entry, or a strict parent is a wildcard entry, and neither it
 nor a parent is whitelisted — compared on whole labels (an escaped dot is part of
 its label), case-insensitively (the query is folded; entries are stored folded).
-`hfq` says the rendered query is fully qualified as `dns.IsFqdn` sees it. -/
-theorem exists_iff_spec (P Wd Wh : List Name) (K : Name)
-    (hK : NameOK K) (hfq : isFqdn (pres K) = true)
+`NameOK` only says that `K` is a list of presentation-form labels as miekg renders
+them (non-empty, dots inside escaped, no dangling backslash). -/
+theorem exists_iff_spec (P Wd Wh : List Name) (K : Name) (hK : NameOK K)
     (hP : ∀ e ∈ P, EntryOK e) (hWd : ∀ e ∈ Wd, EntryOK e) (hWh : ∀ e ∈ Wh, EntryOK e) :
     «exists» (memOf P Wd Wh) (pres K) = specBlocked P Wd Wh (lowerName K) := by
   rw [Bool.eq_iff_iff]
   unfold «exists»
-  rw [canonical_of_fqdn _ hfq, lower_pres, existsCanon_iff, specBlocked_iff]
+  rw [canonical_of_fqdn _ (isFqdn_pres K hK), lower_pres, existsCanon_iff, specBlocked_iff]
   have hn := NameOK_lower K hK
   unfold memOf
   simp only
@@ -395,6 +395,45 @@ theorem reload_match_equivalent (b : Mem) (hwf : WF b) (names : List Str)
             · exact Or.inr ⟨t, dotSuffixes_trans k s t hs ht, h'⟩
         · exact Or.inr ⟨s, hs, hc⟩
   exact and_congr_right (fun _ => key)
+
+
+/-- **The file itself reloads to the same answers**: the bytes `persist` writes
+for the snapshot of `b`, parsed by `parseHostFile` into a fresh list with the same
+whitelist, answer every name as `b` does — when every key is clean (no white
+space, no `#`: the host-file syntax leaves it alone; otherwise
+`reload_mangles_file_syntax`). -/
+theorem reload_file_match_equivalent (b : Mem) (hwf : WF b) (v : Nat)
+    (hclean : ∀ n ∈ snapNames { version := v, exact := b.m, wild := b.wild }, CleanName n) (q : Str) :
+    «exists» (parseHostFile { m := [], wild := [], w := b.w }
+        (fileText (render { version := v, exact := b.m, wild := b.wild }))) q = «exists» b q := by
+  rw [parseHostFile_fileText _ _ hclean]
+  apply reload_match_equivalent b hwf
+  intro n
+  unfold snapNames IsNameOf wildName
+  simp only [List.mem_append, List.mem_map]
+  constructor
+  · rintro (h | ⟨s, hs, rfl⟩)
+    · exact Or.inl h
+    · exact Or.inr ⟨s, hs, rfl⟩
+  · rintro (h | ⟨s, hs, rfl⟩)
+    · exact Or.inl h
+    · exact Or.inr ⟨s, hs, rfl⟩
+
+
+/-- **Both halves together**: after any interleaving has completed (nothing
+pending, nothing in progress, the newest snapshot written without I/O error) the
+file on disk, reloaded by `parseHostFile`, answers every name exactly as the
+in-memory list does — for clean keys; and it is exactly the in-memory list when
+no entry covers another (`reload_equals_memory_partial`). -/
+theorem converged_file_reloads (s0 : PState) (h0 : Init s0) (steps : List Step) (q : Str) :
+    let s := run s0 steps
+    s.pending = [] → s.inflight = none → s.version > 0 → s.version ∉ s.failed →
+    WF s.mem →
+    (∀ n ∈ snapNames { version := s.version, exact := s.mem.m, wild := s.mem.wild }, CleanName n) →
+    ∃ lines, s.main = some lines ∧
+      «exists» (parseHostFile { m := [], wild := [], w := s.mem.w } (fileText lines)) q = «exists» s.mem q := by
+  intro s hp hi hv hf hwf hclean
+  exact ⟨_, persist_converges s0 h0 steps hp hi hv hf, reload_file_match_equivalent s.mem hwf s.version hclean q⟩
 
 /-
 Full statement of `reload_equals_memory` (FALSE, counter-witness `reload_ne_memory`):
